@@ -228,13 +228,16 @@ def fmtEnding : Ending → String
   | .panicked cls => "panicked " ++ cls
   | .died cls => "died " ++ cls
 
+/-- a process killed by a panic in another goroutine is what the harness reports as `panic <class>` -/
 def fmtResponse (r : Response Float) : String :=
-  joinToks ("w" :: toString r.written.length :: (r.written.flatMap tokens) ++ ["end", fmtEnding r.ending])
+  match r.ending with
+  | .died cls => "panic " ++ cls
+  | e => joinToks ("w" :: toString r.written.length :: (r.written.flatMap tokens) ++ ["end", fmtEnding e])
 
 def handleJSON (args : Toks) : String :=
   match (do
     let (split, ts) ← popN args
-    let (_, ts) ← popX ts
+    let ts ← (match ts with | _ :: ts => some ts | [] => none)   -- the request bytes (hex): not read by the model
     let ts ← expect "D" ts
     let (req, ts) ← popDecoded ts
     let ts ← expect "C" ts
